@@ -176,6 +176,9 @@ TIES = [
     ('source_get_range', 'mtbl/source.c', 'mtbl_source_get_range', ALL, ['C02']),
     ('iter_seek', 'mtbl/iter.c', 'mtbl_iter_seek', ALL, ['C03', 'C05']),
     ('iter_next', 'mtbl/iter.c', 'mtbl_iter_next', ALL, ['C03', 'C05']),
+    # the generic containers (function-like macros): whole files
+    ('vector_h', 'libmy/vector.h', None, ALL, ['C04', 'C06', 'C09', 'C18']),
+    ('ubuf_h', 'libmy/ubuf.h', None, ALL, ['C04', 'C08', 'C09', 'C18']),
 ]
 
 def coq_str(s):
@@ -190,8 +193,8 @@ def compute(repo):
                 cache[rel] = strip_comments(rd(repo, rel))
             except OSError:
                 cache[rel] = ''
-        body = func_body(cache[rel], fn)
-        if body is None:
+        body = cache[rel] if fn is None else func_body(cache[rel], fn)   # fn None: the whole file (macro-generated code)
+        if body is None or body == '':
             vals[name] = [(0, '<missing>')]
         else:
             vals[name] = [(d, t) for d, t in statements(body) if re.search(flt, t)]
@@ -226,7 +229,7 @@ def main():
                    '   /repo on every run; a changed statement breaks the corresponding lemma below. *)',
                    'From Coq Require Import List String.', 'From Mtbl Require Import gen.Ties.', 'Import ListNotations.', 'Local Open Scope string_scope.', '']
             for name, rel, fn in items:
-                out.append('(* %s: %s *)' % (rel, fn))
+                out.append('(* %s: %s *)' % (rel, fn or 'whole file'))
                 out.append('Lemma tie_%s : TIE_%s =\n  %s.' % (name, name, coq_list(vals[name])))
                 out.append('Proof. reflexivity. Qed.')
                 out.append('')
@@ -236,7 +239,7 @@ def main():
     out = ['(* GENERATED by tools/gen_ties.py from the mtbl sources - do not edit *)',
            'From Coq Require Import List String.', 'Import ListNotations.', 'Local Open Scope string_scope.', '']
     for name, rel, fn, flt, props in TIES:
-        out.append('(* %s: %s *)' % (rel, fn))
+        out.append('(* %s: %s *)' % (rel, fn or 'whole file'))
         out.append('Definition TIE_%s : list (nat * string) :=\n  %s.' % (name, coq_list(vals[name])))
     ch = write_if_changed(os.path.join(outdir, 'Ties.v'), '\n'.join(out) + '\n')
     missing = [n for n, v in vals.items() if v == [(0, '<missing>')]]
